@@ -19,7 +19,7 @@ func init() {
 			"distinct_nontrivial counts distinct (calendar rows, exception rows, kinds of services present, zone) signatures with at least one service that has both a calendar row and an exception",
 		Cases: func(tier string) int {
 			if tier == "thorough" {
-				return 60000
+				return 200000
 			}
 			return 4000
 		},
